@@ -104,6 +104,10 @@ async def run_async(rec, cfg, plan, variant=0):
         except BaseException as e:  # noqa
             if type(e).__name__ == "TimeoutError":
                 apidrv.api_result_event(api.rec2, api.sid, op, e)
+            elif type(e).__name__ == "BlockingIOError":
+                # "would block" is the raw non-blocking socket's way of saying "nothing yet"; the public coroutine has to turn it into
+                # waiting (and finally TimeoutError).  Escaping from the API it is recorded under a name no outcome accepts.
+                api.rec2.emit(dict(ev="Recv", sid=api.sid, op=op, res={"t": "none"}, exc="BlockingIOError(escaped the public API)", bases=["OSError", "Exception"], interp=[]))
     api.close()
     return a, rec.n
 
